@@ -313,11 +313,12 @@ func c18Layout(c *ctx) {
 		fpOK := false
 		for _, b := range nilErrReturnBlocks(fn, 2) {
 			ret := b.Instrs[len(b.Instrs)-1].(*ssa.Return)
-			sf := storedFields(ret.Results[1])
+			// the child key may be assembled by a private helper (newChildKey(…)): read through
+			sf := storedFields(core.ResolveIn(fn, ret.Results[1]))
 			if v := sf["ParentFP"]; v != nil {
-				if sl, ok := core.Strip(v).(*ssa.Slice); ok {
+				if sl, ok := core.ResolveIn(fn, v).(*ssa.Slice); ok {
 					if k, isK := core.ConstInt(sl.High); isK && k == 4 && sl.Low == nil {
-						if h160, ok := core.IsCallTo(core.Strip(sl.X), "~/crypto/ckd.hash160"); ok && ser != nil && core.Strip(h160.Call.Args[0]) == ssa.Value(ser) {
+						if h160, ok := core.IsCallTo(core.Strip(sl.X), "~/crypto/ckd.hash160"); ok && ser != nil && core.ResolveParamIn(fn, h160.Call.Args[0]) == ssa.Value(ser) {
 							fpOK = true
 						}
 					}
@@ -325,18 +326,18 @@ func c18Layout(c *ctx) {
 			}
 			// IL / chain code split
 			if v := sf["ChainCode"]; v != nil {
-				if sl, ok := core.Strip(v).(*ssa.Slice); ok {
+				if sl, ok := core.ResolveIn(fn, v).(*ssa.Slice); ok {
 					if k, isK := core.ConstInt(sl.Low); !isK || k != 32 || sl.High != nil {
 						bad += "the child chain code is not the last 32 bytes of the MAC; "
 					}
 				}
 			}
 			if v := sf["Depth"]; v != nil {
-				if d := descr(v); !strings.Contains(d, "Depth+1") {
+				if d := descr(core.ResolveIn(fn, v)); !strings.Contains(d, "Depth+1") {
 					bad += "child depth is " + d + "; "
 				}
 			}
-			if v := sf["ChildIndex"]; v == nil || core.TermOf(v).Key() != paramTerm(fn, 0).Key() {
+			if v := sf["ChildIndex"]; v == nil || core.FrameTerm(fn, v).Key() != paramTerm(fn, 0).Key() {
 				bad += "child index field is not the index; "
 			}
 		}
